@@ -189,13 +189,13 @@ Definition wf_call (c : call) : Prop :=
 Lemma prepare_safe c ch : wf_call c -> safe (prepare c ch).
 Proof.
   intros W. destruct c; simpl; try (split; discriminate).
-  - pose proof (api_browse_total ty) as [A B]. destruct (api_browse ty) as [[]| | |]; simpl; try congruence; split; discriminate.
-  - pose proof (api_resolve_hostname_total host) as [A B].
-    destruct (api_resolve_hostname host) as [[]| | |]; simpl; try congruence; split; discriminate.
+  - pose proof (api_browse_total lower ty) as [A B]. destruct (api_browse lower ty) as [[]| | |]; simpl; try congruence; split; discriminate.
+  - pose proof (api_resolve_hostname_total lower host) as [A B].
+    destruct (api_resolve_hostname lower host) as [[]| | |]; simpl; try congruence; split; discriminate.
   - destruct W as [W1 W2].
     destruct (si_names_total ty name host) as [[[[tyd sub] full] server] E]. rewrite E. cbn [bind].
-    pose proof (register_names_safe ty name host tyd sub full server W1 W2 E) as [A B].
-    destruct (api_register_names full server sub) as [[]| | |]; simpl; try congruence; split; discriminate.
+    pose proof (register_names_safe lower ty name host tyd sub full server W1 W2 E) as [A B].
+    destruct (api_register_names lower full server sub) as [[]| | |]; simpl; try congruence; split; discriminate.
   - destruct (len_max_refused n); split; discriminate.
 Qed.
 
@@ -938,9 +938,9 @@ Lemma prepare_chan c ch k :
   cmd_chan k = Some ch /\ (c <> CMonitor -> forall x, k <> QMonitor x).
 Proof.
   intros P H. destruct c; simpl in H; try discriminate; simpl in P.
-  - destruct (api_browse ty) as [[]| | |]; simpl in P; try discriminate. inversion P; subst.
+  - destruct (api_browse lower ty) as [[]| | |]; simpl in P; try discriminate. inversion P; subst.
     split; [reflexivity|intros _ x; discriminate].
-  - destruct (api_resolve_hostname host) as [[]| | |]; simpl in P; try discriminate. inversion P; subst.
+  - destruct (api_resolve_hostname lower host) as [[]| | |]; simpl in P; try discriminate. inversion P; subst.
     split; [reflexivity|intros _ x; discriminate].
   - inversion P; subst. split; [reflexivity|intros _ x; discriminate].
   - inversion P; subst. split; [reflexivity|intros X; congruence].
